@@ -1,10 +1,11 @@
 """C01 — every output character has exactly one source position, inside the source."""
 import os, subprocess, tempfile, sys
-import t2t, gen, impl
+import t2t, gen, impl, corr
 
 OBLIGATIONS = [
     'Yalafi.C01_getTxtPos_length', 'Yalafi.C01_getTxtPos_range', 'Yalafi.C01_scan_inRange',
-    'Yalafi.C01_latexError_inRange', 'Yalafi.C01_ml_parts', 'Yalafi.C01_substitute_positions',
+    'Yalafi.C01_latexError_inRange', 'Yalafi.C01_removeLines_inRange', 'Yalafi.C01_ml_parts',
+    'Yalafi.C01_substitute_positions', 'Yalafi.C01_pipeline_partial',
 ]
 
 def judge(case, res):
@@ -31,7 +32,7 @@ def run(ctx):
     n = ctx.scale(700, 20000)
     cases = t2t.doc_cases(ctx, n)
     for c in cases:
-        c['want_toks'] = False
+        c['cap_lines'] = 3
     ctx.stats['_rule'] = ('G-doc AST documents over the construct catalogue, G-edge prefixes ending at a construct, '
                           'G-mut prefixes/deletions/swaps, G-soup token soup; random options incl. defs files, \\LTinput files, '
                           'multi-language; non-trivial = produces non-empty output')
@@ -46,6 +47,7 @@ def run(ctx):
                           thresh=c.get('thresh'), kind=c['kind'])
         if len(ctx.samples) < 4 and c['kind'] == 'doc':
             ctx.sample({'src': c['src'][:300], 'opts': c.get('opts'), 'multi': c.get('multi')})
+    corr.leaf_corr(ctx, cases, results, limit=ctx.scale(300, 3000))
     cli(ctx)
 
 def cli(ctx):
